@@ -1199,7 +1199,7 @@ GROUP_OF = {
     'copy_slice_dest': 'values', 'copy_slice_vals': 'values', 'get_changed_class': 'values',
     'copy_slice': 'subset', 'copy_sample': 'subset', 'get_subset_key': 'subset',
     'reclassify': 'insert', 'insert_dispatch': 'insert', 'change_class': 'insert', 'insert_slice': 'insert', 'insert_non_slice': 'insert', 'insert_sample': 'insert',
-    'header_slice_times': 'header',
+    'header_slice_times': 'header', 'header_dim_info': 'header',
     'chk_equal': 'stackadd', 'chk_close': 'stackadd', 'chk_congruent': 'stackadd', 'add_dcm': 'stackadd',
     'get_data_trim': 'data', 'file_idx_volume': 'data', 'file_idx_slice': 'data', 'get_data': 'data',
 }
@@ -1848,6 +1848,52 @@ def translate():
         tr.opt_params = {'classification'}
         emit('get_values_and_class', '{α : Type} (self_shape : List Nat) (d : KeyDict α) : Except PyErr (Option (Cls × List α))', g.body, tr,
              '`DcmMetaExtension.get_values_and_class` (dcmmeta.py) for one key')
+    # ---- DicomStack.to_nifti: repetition time and dim_info (group `header`)
+    f = find_func(ds, 'DicomStack', 'to_nifti')
+    blk = None
+    if f is not None:
+        for i_, st in enumerate(f.body):
+            if isinstance(st, ast.If) and 'self._repetition_times' in ast.unparse(st.test):
+                j_ = i_
+                while j_ < len(f.body) and not (isinstance(f.body[j_], ast.Expr) and 'set_dim_info' in ast.unparse(f.body[j_])):
+                    j_ += 1
+                if j_ < len(f.body):
+                    blk = f.body[i_:j_]
+    if blk is None:
+        missing.append('header_dim_info: statements from the repetition-time test to set_dim_info not found')
+    else:
+        tr = Tr({'self._repetition_times': 'trs', 'self._phase_enc_dirs': 'pes',
+                 'None in self._repetition_times': '(trs.contains none)', 'None in self._phase_enc_dirs': '(pes.contains none)',
+                 'list(self._repetition_times)[0]': '(← pyGet (trs)[0]!)', 'list(self._phase_enc_dirs)[0]': '(← pyGet (pes)[0]!)',
+                 "phase_dir == 'ROW'": '(phase_dir == 0)'}, {})
+        tr.stmt_map = {"nifti_header['pixdim'][4] = ": None, "dim_info = {'freq': None, 'phase': None, 'slice': slice_dim}":
+                       ['let mut di_freq : Option Nat := none', 'let mut di_phase : Option Nat := none', 'let di_slice := some slice_dim']}
+
+        class DimInfo(ast.NodeTransformer):
+            """`dim_info['phase'] = x` → `di_phase = Some(x)`; `pixdim[4] = x` → `tr_out = Some(x)`"""
+            def visit_Assign(self, node):
+                t_ = ast.unparse(node.targets[0])
+                if t_ in ("dim_info['phase']", "dim_info['freq']"):
+                    return ast.copy_location(ast.Assign(targets=[ast.Name(id='di_' + t_[10:-2], ctx=ast.Store())],
+                                                        value=ast.Call(func=ast.Name(id='SOME_', ctx=ast.Load()), args=[node.value], keywords=[])), node)
+                if t_ == "nifti_header['pixdim'][4]":
+                    return ast.copy_location(ast.Assign(targets=[ast.Name(id='tr_out', ctx=ast.Store())],
+                                                        value=ast.Call(func=ast.Name(id='SOME_', ctx=ast.Load()), args=[node.value], keywords=[])), node)
+                return node
+        body = [ast.fix_missing_locations(DimInfo().visit(copy.deepcopy(st))) for st in blk]
+        tr.attrs['SOME_(_0)'] = '(some {0})'
+        tr.attrs['(tr_out, di_freq, di_phase, di_slice)'] = '(tr_out, di_freq, di_phase, di_slice)'
+        del tr.stmt_map["nifti_header['pixdim'][4] = "]
+        tr.stmt_map['tr_out = None'] = ['let mut tr_out : Option Int := none']
+        tr.stmt_map_declares = {'tr_out = None': ['tr_out'],
+                                "dim_info = {'freq': None, 'phase': None, 'slice': slice_dim}": ['di_freq', 'di_phase', 'di_slice']}
+        body = [ast.parse('tr_out = None').body[0]] + body
+        emit('header_dim_info', '(trs : List (Option Int)) (pes : List (Option Nat)) (permutation : List Nat) (slice_dim : Nat) : '
+             'Except PyErr (Option Int × Option Nat × Option Nat × Option Nat)',
+             body + [ast.parse('return (tr_out, di_freq, di_phase, di_slice)').body[0]], tr,
+             'the repetition time and the `dim_info` that `DicomStack.to_nifti` writes (dcmstack.py): `_repetition_times` / '
+             '`_phase_enc_dirs` are the sets as lists (phase direction 0 = ROW), the dictionary `dim_info` is its three entries, '
+             '`pixdim[4]` the first component of the result')
     # ---- check_valid
     f = find_func(dm, 'DcmMetaExtension', 'check_valid')
     if f is None:
